@@ -1,2 +1,64 @@
-(* Props/C01.v — placeholder, filled below as the proofs land *)
-Require Import Hdl21.Base.PyInt.
+(* Props/C01.v — elaboration and export preserve the connectivity the designer wrote.
+   The end-to-end statement ("nets of the exported package = nets of the written design, same leaf
+   devices") is evaluated inside Coq on the implementation's package for every generated design
+   (Corr/C01.v:chk_c01, with Spec/Nets.v as the meaning of both sides).  Proved here, for all inputs,
+   are the facts that make that evaluation the property, and the per-pass preservation facts. *)
+Require Import Hdl21.Base.PyInt Hdl21.Spec.PySlice Hdl21.Model.Slice Hdl21.Model.Resolve Hdl21.Base.Design
+               Hdl21.Spec.Nets Hdl21.Base.Package Hdl21.Model.Export Hdl21.Model.Arrays
+               Hdl21.Proofs.FunGraph Hdl21.Proofs.NetsProofs Hdl21.Proofs.ExportProofs Hdl21.Proofs.ArraysProofs
+               Hdl21.Proofs.ResolveProofs.
+
+(* 1. "on one net" = equivalence closure of the sentence "bit k of a port ~ bit k of what is connected to it"
+      = "orbits meet", for any functional one-step map *)
+Theorem C01_net_is_closure (A : Type) (f : A -> A) x y : conn A f x y <-> meet A f x y.
+Proof. exact (conn_meet A f x y). Qed.
+Print Assumptions C01_net_is_closure.
+
+(* 2. the executable relation of Spec/Nets.v decides it on every finite closed node set (any size, any
+      reference chains, fans and cycles) once the fuel reaches the number of nodes *)
+Theorem C01_same_net_decided d f nodes fuel x y :
+  (forall x, In x nodes -> step d x = Ok (f x)) -> (forall x, In x nodes -> In (f x) nodes) ->
+  (Datatypes.length nodes <= fuel)%nat -> In x nodes -> In y nodes ->
+  ((exists ox oy, orbit d fuel x = Ok ox /\ orbit d fuel y = Ok oy /\ Nets.meets ox oy = true) <-> conn node f x y).
+Proof. intros H1 H2. exact (same_net_decided d f nodes H1 H2 fuel x y). Qed.
+Print Assumptions C01_same_net_decided.
+
+(* 3. the criterion every rewriting pass (port references -> signals, arrays -> instances, bundle flattening)
+      is an instance of: new connections only join already-joined nodes, old ones stay joined => same nets *)
+Theorem C01_rewire_same_nets (A : Type) (f f' : A -> A) :
+  (forall x, conn A f x (f' x)) -> (forall x, conn A f' x (f x)) -> forall x y, conn A f x y <-> conn A f' x y.
+Proof. exact (rewire_same_nets A f f'). Qed.
+Print Assumptions C01_rewire_same_nets.
+
+(* 4. slice resolution preserves the bit sequence of every connection (from C03) *)
+Theorem C01_resolve_preserves x :
+  match xbits x with
+  | Ok bs => exists l, list_flat x = Ok l /\ flats_bits l = bs /\ Forall (fun f => flat_wf f = true) l
+  | Error _ => exists e, list_flat x = Error e
+  end.
+Proof. exact (list_flat_spec x). Qed.
+Print Assumptions C01_resolve_preserves.
+
+(* 5. array flattening: element k receives the whole connection (broadcast) or bits k*w..(k+1)*w-1 *)
+Theorem C01_array_element_bits n w c k bits : 1 <= w -> 0 <= k < n -> xbits c = Ok bits ->
+  match array_elem_conn n w c k with
+  | Ok c' => exists l', xbits c' = Ok l' /\ zlen l' = w /\
+               forall j, 0 <= j < w -> pick l' j = (if zlen bits =? w then pick bits j else pick bits (k * w + j))
+  | Error _ => zlen bits <> w /\ zlen bits <> n * w
+  end.
+Proof. exact (array_element_bits n w c k bits). Qed.
+Print Assumptions C01_array_element_bits.
+
+(* 6. export, read back as the VLSIR netlisters read it: bit i of the connection is bit i of the target
+      (inclusive top, index 0 least significant, concatenation parts most significant first) *)
+Theorem C01_export_read sigs nm r : Forall (flat_declared sigs nm) (resolved_flats r) ->
+  read_target sigs (export_resolved nm r) = Ok (map (named nm) (flats_bits (resolved_flats r))).
+Proof. exact (export_read sigs nm r). Qed.
+Print Assumptions C01_export_read.
+
+(* non-vacuity *)
+Example C01_ex_export :
+  read_target [("a", 1); ("b", 2)]
+     (export_resolved (fun id => if N.eqb id 0 then "a" else "b") (RConcat [FSig 0 1; FSl 1 2 0 2]))
+  = Ok [("a", 0); ("b", 0); ("b", 1)].
+Proof. reflexivity. Qed.
